@@ -13,8 +13,10 @@
 //	                       classes the operator forms vs. the number of `=`-classes the engine
 //	                       itself reports through a cross join projecting `x.c = y.c`.
 //
-// Envelope (kept out on purpose, defects of other properties): unsigned/float compare types
-// (`=` itself goes through float64 above 2^53: C26), number-vs-string comparisons (C26), strings
+// Envelope (kept out on purpose, defects of other properties): unsigned compare types and floats
+// meeting integers/decimals (`=` itself goes through float64 above 2^53: C26) — DOUBLE columns and
+// float literals meet each other only, with an edge alphabet around ±2^53, ±2^63, 2^64, 1e19…1e300,
+// ±0, fractions —, number-vs-string comparisons (C26), strings
 // that are not valid UTF-8 (C30), negative zero decimals, literals on the left of IN (subquery)
 // (conversion errors are swallowed: C27), different string types on the two sides.
 package main
@@ -23,6 +25,7 @@ import (
 	"fmt"
 	"go/ast"
 	"go/token"
+	"math"
 	"sort"
 	"strconv"
 	"strings"
@@ -334,11 +337,54 @@ func extract(a hx.ExtractArgs) error {
 // Values.
 
 type val struct {
-	k byte // 'n' null, 'i' int, 'd' decimal, 's' string, 'b' bool
+	k byte // 'n' null, 'i' int, 'd' decimal, 's' string, 'b' bool, 'f' float64
 	i int64
 	s int    // scale
 	t string // string
+	f float64
 }
+
+func vflt(f float64) val { return val{k: 'f', f: f} }
+
+// fltDecimal is the shortest round-trip decimal of f as (coefficient text, scale) in the normal form
+// of Gms.HashEq.Val.flt: scale 0 and every integer digit for integral values, otherwise a coefficient
+// that does not end in 0. It is computed from the exponent form ('e'), not from the 'f' form the
+// code under test uses, and validated by parsing it back.
+func fltDecimal(f float64) (coef string, scale int) {
+	e := strconv.FormatFloat(f, 'e', -1, 64) // d.ddddde±xx
+	neg := strings.HasPrefix(e, "-")
+	e = strings.TrimPrefix(e, "-")
+	mant, exps, _ := strings.Cut(e, "e")
+	x, _ := strconv.Atoi(exps)
+	digits := strings.Replace(mant, ".", "", 1)
+	x -= len(digits) - 1 // value = digits * 10^x
+	digits = strings.TrimLeft(digits, "0")
+	if digits == "" {
+		return "0", 0
+	}
+	for strings.HasSuffix(digits, "0") {
+		digits = digits[:len(digits)-1]
+		x++
+	}
+	if x >= 0 {
+		digits += strings.Repeat("0", x)
+		x = 0
+	}
+	if neg {
+		digits = "-" + digits
+	}
+	// self-validation: the decimal denotes exactly this double
+	chk := digits
+	if x < 0 {
+		chk += "e" + strconv.Itoa(x)
+	}
+	if g, err := strconv.ParseFloat(chk, 64); err != nil || g != f {
+		panic(fmt.Sprintf("fltDecimal(%v) = %s does not round-trip", f, chk))
+	}
+	return digits, -x
+}
+
+func isNegZero(f float64) bool { return f == 0 && math.Signbit(f) }
 
 func vnull() val          { return val{k: 'n'} }
 func vint(i int64) val    { return val{k: 'i', i: i} }
@@ -361,6 +407,13 @@ func (v val) sexp() string {
 		return fmt.Sprintf("(d %d %d)", v.i, v.s)
 	case 's':
 		return "(s " + hx.HexS(v.t) + ")"
+	case 'f':
+		c, sc := fltDecimal(v.f)
+		z := 0
+		if isNegZero(v.f) {
+			z = 1
+		}
+		return fmt.Sprintf("(f %s %d %d)", c, sc, z)
 	}
 	return fmt.Sprintf("(b %d)", v.i)
 }
@@ -395,12 +448,16 @@ func (v val) text() string {
 		return decString(v.i, v.s)
 	case 's':
 		return v.t
+	case 'f': // NumberTypeImpl_.SQLFloat64
+		return strconv.FormatFloat(v.f, 'g', -1, 64)
 	}
 	return strconv.FormatInt(v.i, 10)
 }
 
 func (v val) lit() string {
 	switch v.k {
+	case 'f': // exponent form: the parser makes a float64 literal of it
+		return strconv.FormatFloat(v.f, 'e', -1, 64)
 	case 's':
 		return "'" + strings.ReplaceAll(strings.ReplaceAll(v.t, `\`, `\\`), "'", "''") + "'"
 	case 'b':
@@ -445,6 +502,13 @@ func (v val) goValue(r *hx.Rand) interface{} {
 		return apd.New(v.i, int32(-v.s))
 	case 's':
 		return v.t
+	case 'f':
+		// float32 when the value is a float32 whose 32-bit shortest text is its 64-bit shortest text
+		if f32 := float32(v.f); float64(f32) == v.f && r.Chance(1, 3) &&
+			strconv.FormatFloat(v.f, 'f', -1, 32) == strconv.FormatFloat(v.f, 'f', -1, 64) {
+			return f32
+		}
+		return v.f
 	}
 	return v.i == 1
 }
@@ -501,6 +565,8 @@ func strsOf(vs ...[]val) []string {
 				out = append(out, v.t)
 			case 'i', 'd', 'b': // ConvertToString under a string-typed schema column
 				out = append(out, v.text())
+			case 'f':
+				out = append(out, "-0123456789.")
 			}
 		}
 	}
@@ -552,6 +618,44 @@ func genDec(r *hx.Rand, maxScale int) val {
 	return vdec(c, s)
 }
 
+// fltPool: the edge alphabet of the float stream — both sides of 2^53 (where doubles stop holding every
+// integer), both sides of ±2^63 and 2^64 (where a conversion to int64/uint64 stops being defined),
+// far beyond (1e19 … 1e300), ±0, small integers, fractions, the smallest/largest magnitudes.
+var fltPool = []float64{0, math.Copysign(0, -1), 1, -1, 2, 5, 0.5, -0.5, 2.5, 0.1, 0.25, 1.5, 100, 1e15, 123456.75,
+	9007199254740991, 9007199254740992, 9007199254740994, -9007199254740992,
+	9223372036854774784, 9223372036854775808, 9223372036854777856, -9223372036854774784, -9223372036854775808, -9223372036854777856,
+	18446744073709549568, 18446744073709551616, 18446744073709555712,
+	1e19, 2e19, -1e19, -2e19, 3.5e30, -3.5e30, 1e22, 1e23, 1.7976931348623157e308, 1e300, -1e300, 5e-324, 1e-7, 16777216, 16777217, 3.4028234663852886e38}
+
+func genFlt(r *hx.Rand) float64 {
+	switch r.Intn(8) {
+	case 0, 1, 2, 3:
+		return hx.Pick(r, fltPool)
+	case 4: // whole numbers of any magnitude
+		m := float64(r.Range(1, 9999))
+		f := m * math.Pow(10, float64(r.Range(0, 40)))
+		if r.Bool() {
+			f = -f
+		}
+		return f
+	case 5: // around ±2^63 / 2^64: neighbours a few ulps away
+		base := hx.Pick(r, []float64{9223372036854775808, -9223372036854775808, 18446744073709551616})
+		for k := r.Range(-3, 3); k != 0; {
+			if k > 0 {
+				base = math.Nextafter(base, math.Inf(1))
+				k--
+			} else {
+				base = math.Nextafter(base, math.Inf(-1))
+				k++
+			}
+		}
+		return base
+	case 6:
+		return float64(r.Range(-3, 12))
+	}
+	return float64(r.Range(-2000, 2000)) / 8
+}
+
 func pow10(n int) int64 {
 	p := int64(1)
 	for i := 0; i < n; i++ {
@@ -575,6 +679,8 @@ func schemaCol(kind string, c sql.CollationID) *sql.Column {
 		return &sql.Column{Type: types.Int64}
 	case "ndec":
 		return &sql.Column{Type: types.InternalDecimalType}
+	case "nflt":
+		return &sql.Column{Type: types.Float64}
 	}
 	return nil
 }
@@ -617,7 +723,7 @@ func unitCases(out *hx.Out, r *hx.Rand, colls []collInfo, n int) {
 				continue
 			}
 			sch = append(sch, schemaCol(k, ci.id))
-			if k == "nint" || k == "ndec" {
+			if k == "nint" || k == "ndec" || k == "nflt" {
 				tags = append(tags, "n")
 			} else {
 				tags = append(tags, k)
@@ -661,6 +767,60 @@ func unitCases(out *hx.Out, r *hx.Rand, colls []collInfo, n int) {
 		out.Stat("unit:htuple")
 	}
 
+	// same key ⇔ `=` on a pair of numbers of one family (ty: a compare type of HashOfSimple, or "hashof" =
+	// HashOf without schema): the observation is whether the two real hashes are equal
+	pairCase := func(ty string, x, y val) {
+		h := func(v val) (uint64, error) {
+			if ty == "hashof" {
+				return hash.HashOf(ctx, nil, sql.Row{v.goValue(r)})
+			}
+			hv, _, err := hash.HashOfSimple(ctx, v.goValue(r), cmpType(ty, binColl))
+			return hv, err
+		}
+		obs := ""
+		p := hx.Safe(func() {
+			h1, e1 := h(x)
+			h2, e2 := h(y)
+			switch {
+			case e1 != nil || e2 != nil:
+				obs = "err"
+			case h1 == h2:
+				obs = "1"
+			default:
+				obs = "0"
+			}
+		})
+		if p != "" {
+			obs = "crash:" + p
+		}
+		out.Case(hx.List("hpair", ty, x.sexp(), y.sexp()), obs, true)
+		out.Stat("unit:hpair:" + ty)
+	}
+	for i, f := range fltPool {
+		for _, g := range fltPool[i:] {
+			pairCase("float64", vflt(f), vflt(g))
+			pairCase("hashof", vflt(f), vflt(g))
+		}
+	}
+	for i := 0; i < n/10; i++ {
+		ty := hx.Pick(r, []string{"float64", "hashof", "hashof", "int64"})
+		var x, y val
+		if ty == "float64" || (ty == "hashof" && r.Bool()) {
+			x = vflt(genFlt(r))
+			y = vflt(genFlt(r))
+			if r.Chance(1, 4) {
+				y = x
+			}
+		} else {
+			x = vint(genInt(r))
+			y = vint(genInt(r))
+			if r.Chance(1, 4) {
+				y = x
+			}
+		}
+		pairCase(ty, x, y)
+	}
+
 	// corpus: the witnesses of the findings, at the level of the hash functions
 	c0 := colls[0]
 	hashofCase(c0, []string{"ndec"}, 1, []val{vdec(10, 1)})
@@ -685,6 +845,12 @@ func unitCases(out *hx.Out, r *hx.Rand, colls []collInfo, n int) {
 	simpleCase(c0, "textc", vstr("a"))
 	simpleCase(c0, "textc", vstr("A"))
 	simpleCase(c0, "textd", vstr("A"))
+	// floats: whole numbers on both sides of the int64/uint64 range, -0, fractions
+	for _, f := range fltPool {
+		hashofCase(c0, []string{"nflt"}, 0, []val{vflt(f)})
+		hashofCase(c0, []string{"nflt"}, 1, []val{vflt(f)})
+		simpleCase(c0, "float64", vflt(f))
+	}
 
 	genVal := func(kind string) val {
 		if r.Chance(1, 10) {
@@ -707,6 +873,8 @@ func unitCases(out *hx.Out, r *hx.Rand, colls []collInfo, n int) {
 				return vbool(r.Bool())
 			}
 			return vint(genInt(r))
+		case "nflt":
+			return vflt(genFlt(r))
 		}
 		if r.Chance(1, 4) {
 			return vint(genInt(r))
@@ -721,7 +889,7 @@ func unitCases(out *hx.Out, r *hx.Rand, colls []collInfo, n int) {
 			kinds := make([]string, w)
 			row := make([]val, w)
 			for j := range kinds {
-				kinds[j] = hx.Pick(r, []string{"c", "c", "d", "r", "nint", "ndec"})
+				kinds[j] = hx.Pick(r, []string{"c", "c", "d", "r", "nint", "ndec", "nflt"})
 				row[j] = genVal(kinds[j])
 				if row[j].k == 's' && kinds[j] != "r" && !utf8.ValidString(row[j].t) {
 					row[j] = vstr("a")
@@ -756,6 +924,9 @@ func unitCases(out *hx.Out, r *hx.Rand, colls []collInfo, n int) {
 				}
 				if r.Chance(1, 3) {
 					v = vint(int64(r.Range(-100000, 100000)))
+				}
+				if r.Chance(1, 2) {
+					v = vflt(genFlt(r))
 				}
 			default:
 				v = vstr(genStr(r))
@@ -808,6 +979,8 @@ func (t colTy) ddl(ci collInfo) string {
 		return "DECIMAL(14," + string(t[1]) + ")"
 	case "sb":
 		return "VARCHAR(20) COLLATE utf8mb4_0900_bin"
+	case "f":
+		return "DOUBLE"
 	}
 	return "VARCHAR(20) COLLATE " + ci.name
 }
@@ -836,6 +1009,8 @@ func genColVal(r *hx.Rand, t colTy, pool []val) val {
 			return p
 		case t == "i" && p.k == 'i':
 			return p
+		case t == "f" && p.k == 'f':
+			return p
 		case t == "i" && p.k == 'd' && p.i%pow10(p.s) == 0:
 			return vint(p.i / pow10(p.s))
 		case t[0] == 'd' && p.k == 'i' && p.i > -1000000 && p.i < 1000000:
@@ -847,6 +1022,12 @@ func genColVal(r *hx.Rand, t colTy, pool []val) val {
 	switch {
 	case t.isStr():
 		return vstr(genStr(r))
+	case t == "f":
+		f := genFlt(r)
+		if isNegZero(f) { // the literal -0e0 is stored as 0: -0.0 is covered at the unit level only
+			f = 0
+		}
+		return vflt(f)
 	case t == "i":
 		i := genInt(r)
 		if i > 2147483647 || i < -2147483648 {
@@ -1258,7 +1439,7 @@ func (o *opRunner) eqCase(ci collInfo, lt, rt colTy, a, b val) {
 	o.out.Stat("eq:" + string(lt) + "/" + string(rt))
 }
 
-var typePairs = [][2]colTy{{"i", "i"}, {"d1", "d1"}, {"d2", "d2"}, {"d1", "d2"}, {"i", "d2"}, {"i", "d1"}, {"sb", "sb"}, {"sc", "sc"}, {"sc", "sc"}}
+var typePairs = [][2]colTy{{"i", "i"}, {"d1", "d1"}, {"d2", "d2"}, {"d1", "d2"}, {"i", "d2"}, {"i", "d1"}, {"sb", "sb"}, {"sc", "sc"}, {"sc", "sc"}, {"f", "f"}, {"f", "f"}}
 
 var opNames = []string{"groupby", "distinct", "countdistinct", "union", "intersect", "except", "inlist", "insub", "hashjoin"}
 
@@ -1284,7 +1465,7 @@ func genOpCase(r *hx.Rand, colls []collInfo, op string) opCase {
 		if op == "inlist" {
 			// literals: any representation of the column's comparison family
 			switch {
-			case c.lt.isStr():
+			case c.lt.isStr() || c.lt == "f": // DOUBLE column: float literals (exponent form)
 				v = genColVal(r, c.lt, pool)
 			case r.Chance(1, 2):
 				v = genColVal(r, "i", pool)
@@ -1330,6 +1511,12 @@ func corpus(colls []collInfo) []opCase {
 		cs = append(cs, opCase{op: op, ci: ci, lt: "i", rt: "d2", xs: []val{vint(1), vint(2)}, ys: []val{vdec(100, 2), vdec(250, 2)}})
 		cs = append(cs, opCase{op: op, ci: ci, lt: "sb", rt: "sb", xs: []val{vstr("<nil>"), vstr(""), vstr(""), a}, ys: []val{vnull(), a}})
 	}
+	// DOUBLE: whole numbers beyond the int64 / uint64 range, around 2^53, ±0, fractions
+	big := []val{vflt(1e19), vflt(2e19), vflt(-1e19), vflt(3.5e30), vflt(9223372036854775808), vflt(2), vflt(0.5), vflt(0), vnull()}
+	for _, op := range []string{"groupby", "distinct", "countdistinct", "union", "intersect", "except", "insub", "hashjoin"} {
+		cs = append(cs, opCase{op: op, ci: ci, lt: "f", rt: "f", xs: big, ys: []val{vflt(2e19), vflt(18446744073709551616), vflt(2), vflt(0), vflt(9007199254740992)}})
+	}
+	cs = append(cs, opCase{op: "inlist", ci: ci, lt: "f", rt: "f", xs: big, ys: []val{vflt(2e19), vflt(5)}})
 	cs = append(cs, opCase{op: "inlist", ci: ci, lt: "sc", rt: "sc", xs: []val{a, A, b}, ys: []val{A}})
 	cs = append(cs, opCase{op: "inlist", ci: ci, lt: "i", rt: "i", xs: []val{vint(1), vint(2), vint(3)}, ys: []val{vint(1), vdec(15, 1)}})
 	cs = append(cs, opCase{op: "inlist", ci: ci, lt: "i", rt: "i", xs: []val{vint(1), vint(2)}, ys: []val{vdec(10, 1), vdec(200, 2)}})
@@ -1341,9 +1528,9 @@ func run(a hx.RunArgs) error {
 	out := hx.NewOut(a.OutDir)
 	defer out.Close()
 	out.Rule = "unit: real hash.HashOf / HashOfSimple on generated rows (1-4 columns; strings from a pool of case/accent variants, '', '<nil>', " +
-		"separator bytes; ints of every Go width; decimals of scale 0-5; bools; with a full, partial or no schema) — non-trivial when the row is non-empty / the value non-NULL; " +
+		"separator bytes; ints of every Go width; decimals of scale 0-5; bools; float64/float32 of every magnitude (whole numbers beyond ±2^63, -0.0, fractions); with a full, partial or no schema) — non-trivial when the row is non-empty / the value non-NULL; " +
 		"eq: the engine's `=` between two typed columns; op: per hashing operator a query over two freshly created tables (INT, DECIMAL(14,1|2), " +
-		"VARCHAR under utf8mb4_0900_bin or a case-insensitive collation; 0-5 + 0-4 values drawn so that `=`-equal values with different " +
+		"VARCHAR under utf8mb4_0900_bin or a case-insensitive collation, DOUBLE with values around ±2^53, ±2^63, 2^64, up to 1e300, fractions; 0-5 + 0-4 values drawn so that `=`-equal values with different " +
 		"representations occur) — non-trivial when the result is non-empty and at least two values are involved"
 	r := hx.NewRand(a.Seed)
 	colls := collations()
